@@ -48,7 +48,8 @@ def sources(spec):
         # ordinary one-statement-per-line sources with one dimension past 2^8: variables, definitions, parameters, labels,
         # nesting, call depth, identifier length, files, include depth
         for files, main, kind in programs.scale_sources(r, small=spec["chunk"] == 0):
-            if "macro" in kind or "one-line" in kind or kind.endswith("-4000") or kind.endswith("-70000"):
+            if "macro" in kind or "one-line" in kind or kind.endswith("-4000") or kind.endswith("-70000") or kind.endswith("-1000") \
+                    or (kind.endswith("-1100") and any(w in kind for w in ("locals", "parameters", "variables"))):
                 continue
             out.append((files, main, kind))
     elif spec["kind"] == "redef":
